@@ -85,7 +85,22 @@ fuzz_target!(|data: &[u8]| {
         Some(c) => c,
         None => return,
     };
-    let or = Oracles { returns: true, quiescent: true, ledger: true, canary: true, capacity: case.cfg.hmode == HMode::Identity && case.cfg.keymap == KeyMap::Dense, cmp_bound: true, growth: true };
+    let collision_free = case.cfg.hmode == HMode::Identity && case.cfg.keymap == KeyMap::Dense;
+    let all = Oracles { returns: true, quiescent: true, ledger: true, canary: true, capacity: collision_free, cmp_bound: true, growth: true };
+    // FVH_FUZZ_PROP selects the oracles of one property (so that a failure replays under `./check <prop> --replay`)
+    let or = match std::env::var("FVH_FUZZ_PROP").as_deref() {
+        Ok("C02") => Oracles { returns: true, ..Default::default() },
+        Ok("C03") => Oracles { returns: true, ledger: true, canary: true, ..Default::default() },
+        Ok("C04") => Oracles { ledger: true, canary: true, ..Default::default() },
+        Ok("C05") => Oracles { quiescent: true, ..Default::default() },
+        Ok("C06") => Oracles { quiescent: true, cmp_bound: true, ..Default::default() },
+        Ok("C10") => Oracles { quiescent: true, growth: true, ..Default::default() },
+        Ok("C14") => Oracles { capacity: true, ..Default::default() },
+        _ => all,
+    };
+    if std::env::var("FVH_FUZZ_PROP").as_deref() == Ok("C14") && !collision_free {
+        return;
+    }
     let r = if case.cfg.set { run_set_case(&case, Oracles { cmp_bound: false, capacity: false, growth: false, ..or }) } else { run_map_case(&case, or) };
     if let Err(f) = r {
         let js = serde_json::json!({"sub": if case.cfg.set { "set" } else { "map" }, "case": case, "oracle": f.prop, "message": f.msg, "step": f.step});
